@@ -33,7 +33,7 @@ Theorem rules_decided :
 Proof. vm_compute. reflexivity. Qed.
 
 (* ------------------------------------------------------------------ memory / move / control rules (C05_mem.v) *)
-From PV Require Import Proofs.C05_mem.
+From PV Require Import Proofs.C05_mem Proofs.C05_ext.
 
 Definition covered_rules2 : list string := map r_text (filter check_rule2 rv_rules).
 
@@ -49,7 +49,14 @@ Qed.
 
 Theorem rules2_decided :
   forallb (fun n => let r := rule_at n in
-                    negb (in_scope2 r) || check_rule2 r || existsb (fun w => Nat.eqb (fst (fst w)) n) rv_cj_bad ||
+                    negb (in_scope2 r) || check_rule2 r || check_cjmp_ext r ||
+                    existsb (fun w => Nat.eqb (fst (fst w)) n) rv_cj_bad ||
                     existsb (Nat.eqb n) rv_rules2_undecided)
           (seq 0 (List.length rv_rules)) = true.
 Proof. vm_compute. reflexivity. Qed.
+
+(* sub-word conditional jumps with operand extension, casts, neg/inv, REG (C05_ext.v) *)
+Definition check_rule3 (r : rule) : bool := check_cjmp_ext r || check_unary r.
+Definition covered_rules3 : list string := map r_text (filter check_rule3 rv_rules).
+Definition proved_total : nat :=
+  List.length (filter (fun r => check_rule r || check_rule2 r || check_rule3 r) rv_rules).
